@@ -118,17 +118,50 @@ def rule_r2_r3(ctx: Ctx) -> None:
 
 def rule_r4(ctx: Ctx) -> None:
     repo = ctx.repo
-    ctx.rule("C14.R4", "the reader's buffer is accessed only where the limit is enforced; the decoder talks to the reader only through read_bits / align_to / bounded_subreader / remaining_bits", min_instances=2)
+    ctx.rule("C14.R4", "the reader's buffer contents are accessed only where the limit is enforced; the decoder talks to the reader only through members that cannot see past the limit", min_instances=2)
+    from .c07 import bitreader_limit_fields
+
     rd = ctx.cls(SD + "._BitReader")
-    ok_methods = {"__init__", "read_bits", "bounded_subreader", "remaining_bits"}
-    touching = sorted(name for name, m in rd.methods.items() if any(isinstance(n, ast.Attribute) and n.attr == "_data" for n in ast.walk(m.node)))
-    ctx.check(set(touching) <= ok_methods, rd.short, "buffer accessed in %s" % touching, "every read of the buffer must go through read_bits, which honours the sub-reader's limit", rd.module.relpath, sorted(set(touching) - ok_methods))
+    _, limit_fields, _ = bitreader_limit_fields(ctx)
+    pm_cache: Dict[str, Dict[ast.AST, ast.AST]] = {}
+
+    def content_uses(m: FuncInfo) -> List[ast.AST]:
+        """uses of self._data that can observe the bytes (not: the store in __init__, len(), handing the buffer to a sub-reader)"""
+        from ..core import parents_map
+
+        pm = pm_cache.setdefault(m.qualname, parents_map(m.node))
+        out = []
+        for n in ast.walk(m.node):
+            if isinstance(n, ast.Attribute) and n.attr == "_data" and norm(n.value) == "self":
+                par = pm.get(n)
+                if isinstance(n.ctx, ast.Store):
+                    continue
+                if isinstance(par, ast.Call) and dotted(par.func) == "len":
+                    continue
+                if isinstance(par, ast.Call) and isinstance(repo.resolve_expr(m.module, par.func, m.cls), ClassInfo) and repo.resolve_expr(m.module, par.func, m.cls).name == "_BitReader":  # type: ignore
+                    continue
+                out.append(n)
+        return out
+
+    touching = {name: content_uses(m) for name, m in rd.methods.items()}
+    touching = {k: v for k, v in touching.items() if v}
+    if "read_bits" not in touching:
+        raise AnalysisError("_BitReader.read_bits no longer reads the buffer: the anchor of C14.R4 / C07.R3 moved")
+    for name, uses in sorted(touching.items()):
+        m = rd.methods[name]
+        if name == "read_bits":
+            continue
+        mentions_limit = any(isinstance(n, ast.Attribute) and norm(n) in limit_fields for n in ast.walk(m.node))
+        if mentions_limit:
+            raise AnalysisError("_BitReader.%s reads the buffer and consults the limit: its limit arithmetic is outside what C07.R3 / C14.R4 verify (only read_bits is modelled)" % name)
+        ctx.check(False, m.short, "reads self._data without consulting %s" % sorted(limit_fields), "every read of the buffer must honour the sub-reader's limit: bits beyond the nested object's window read as zeros, never as the container's bytes", m.where(uses[0]))
+    ctx.check(True, rd.short, "buffer contents read in %s" % sorted(touching), "scan completed", rd.module.relpath, nontrivial=False)
     # in read_bits the limit check precedes any buffer access
     rb = rd.methods["read_bits"]
-    first_data = min((n.lineno for n in ast.walk(rb.node) if isinstance(n, ast.Attribute) and n.attr == "_data"), default=10**9)
-    limit_if = [st for st in body_without_docstring(rb.node) if isinstance(st, ast.If) and norm(st.test) == "self._bit_limit is not None"]
+    first_data = min((n.lineno for n in touching["read_bits"]), default=10**9)
+    limit_if = [st for st in body_without_docstring(rb.node) if isinstance(st, ast.If) and isinstance(st.test, ast.Compare) and isinstance(st.test.ops[0], ast.IsNot) and norm(st.test.left) in limit_fields and norm(st.test.comparators[0]) == "None"]
     ctx.check(len(limit_if) == 1 and limit_if[0].lineno < first_data, rb.short, "limit handled before the buffer is touched", "out-of-limit reads yield zeros instead of the container's bytes", rb.where())
-    allowed = {"read_bits", "align_to", "bounded_subreader", "remaining_bits"}
+    # the decoder's view of the reader
     used: Dict[str, Set[str]] = {}
     for fn in repo.all_functions().values():
         if fn.module.name != "pydsdl._serdes" or fn.cls is not None:
@@ -136,7 +169,16 @@ def rule_r4(ctx: Ctx) -> None:
         for n in ast.walk(fn.node):
             if isinstance(n, ast.Attribute) and isinstance(n.value, ast.Name) and n.value.id in ("reader", "sub_reader"):
                 used.setdefault(fn.short, set()).add(n.attr)
-    bad = {k: sorted(v - allowed) for k, v in used.items() if v - allowed}
+    bad: Dict[str, List[str]] = {}
+    for f, attrs in used.items():
+        for a in sorted(attrs):
+            if a in rd.methods:
+                if a in touching and a != "read_bits":
+                    bad.setdefault(f, []).append(a)
+            elif a.startswith("_"):
+                bad.setdefault(f, []).append(a)  # the reader's private state
+            else:
+                raise AnalysisError("%s uses reader.%s, which is not a member of _BitReader" % (f, a))
     ctx.check(not bad and bool(used), "_serdes (decoder functions)", "reader interface used: %s" % sorted(set().union(*used.values())) if used else "?", "decoding must not bypass the limit-aware primitives", "pydsdl/_serdes.py", bad)
 
 
